@@ -26,8 +26,8 @@ from ..translate import c11 as tr
 PROPERTY = "C11"
 THEOREM_MODULE = "NemoVerif.Theorems.C11"
 RULE = ("ser: random object graph over scalars/list/tuple/set/deque/dict/enum/datetime/Event/InternalEvent/ActionEvent/"
-        "FlowHead/FlowState/Action with a pool of shared sub-objects, 12% carrying one unsupported leaf (regex, comparison, "
-        "unknown class, non-string or tuple key, non-JSON action payload); cleanup: 1-7 flow records, ages at the boundary "
+        "FlowHead/FlowState/Action/re.Pattern and dicts with None/bool/int/tuple keys, with a pool of shared sub-objects, 12% carrying one "
+        "special leaf (regex, non-string or tuple key — supported since d13eeb5 —, comparison, unknown class, non-JSON action payload); cleanup: 1-7 flow records, ages at the boundary "
         "(age-1us, age, age+1us), every status, activated 0/1/2, parent/child links, action references; e2e: program built "
         "from flow templates (start/await/activate/when/match groups, event/flow/action references, variables holding sets "
         "and nested containers) + random history; every cut point is enumerated for restore and for ageing. "
@@ -40,7 +40,7 @@ TRUSTED_BASE = [
     "the behavioural continuation claim (T3) is NOT carried by a theorem: it is tested on the real interpreter at every cut point of the generated histories",
 ]
 ASSUMPTIONS = [
-    "no float dict keys, no key collisions after stringification ({1:..,'1':..}), floats finite and dyadic",
+    "dict keys are None/bool/int/str or flat tuples of them (no float keys, no nested tuple keys; equal keys such as 1/True are not generated together); floats finite and dyadic",
     "function-level models: Serialize.encode/decode (sharing-free reading), CleanUp.cleanUp (well-formed flow_id_states index)",
     "fake clock replaces statemachine.datetime / flows.datetime; uuids come from a counter; random.choice picks the first candidate",
 ]
@@ -126,13 +126,21 @@ def g_value(rng, depth, npool, bad=None):
     if r < 0.58:
         return {"q": [sub() for _ in range(n)]}
     if r < 0.74:
+        if rng.random() < 0.2:  # non-string keys: written as an item list since d13eeb5
+            pool = [None, True, {"i": 0}, {"i": 5}, {"i": -2}, {"s": "k"}, {"s": "__type"}, {"T": []}, {"T": [{"i": 1}, {"s": "b"}]}, {"T": [None, False]}]
+            ks = rng.sample(pool, min(n, 3))
+            if True in ks and {"i": 1} in ks:
+                ks.remove(True)
+            return {"d": [[k, sub()] for k in ks]}
         return {"d": [[{"s": k}, sub()] for k in rng.sample(KEYS, n)]}
     if r < 0.78:
         return {"e": list(rng.choice(ENUMS))}
     if r < 0.81:
         return {"dt": rng.choice(["2024-01-02T03:04:05.000006", "2023-12-31T23:59:59", "2024-02-29T12:00:00.500000"])}
-    if r < 0.84:
+    if r < 0.83:
         return {"st": rng.choice(["event", "action", "flow", "reference"])}
+    if r < 0.84:
+        return {"r": rng.choice(pv.REGEXES)}
     if r < 0.89:
         return {"D": ["Event", [[{"s": "name"}, {"s": rng.choice(["Ev", "X"])}], [{"s": "arguments"}, {"d": [[{"s": k}, sub()] for k in rng.sample(KEYS, min(n, 2))]}],
                                [{"s": "matching_scores"}, {"l": [enc_scalar(rng.choice([1.0, 0.5, 0.25]))] * rng.randrange(2)}]]]}
@@ -182,9 +190,10 @@ BAD_KINDS = ["regex", "cmp", "other", "intkey", "nonekey", "boolkey", "tuplekey"
 
 def plant(rng, v, kind):
     """put one unsupported leaf somewhere in v (returns a new value)"""
-    leaf = {"regex": {"r": rng.randrange(3)}, "cmp": {"c": 1}, "other": {"o": "Unknown"}, "partial": {"p": 1},
+    leaf = {"regex": {"r": rng.choice(pv.REGEXES)}, "cmp": {"c": 1}, "other": {"o": "Unknown"}, "partial": {"p": 1},
             "intkey": {"d": [[{"i": rng.choice([1, 0, -2])}, {"s": "a"}], [{"s": "k"}, {"i": 1}]]},
-            "nonekey": {"d": [[None, {"i": 3}]]}, "boolkey": {"d": [[True, {"i": 4}]]}, "tuplekey": {"d": [[{"T": 1}, {"i": 5}]]},
+            "nonekey": {"d": [[None, {"i": 3}], [{"s": "s"}, {"r": ["a+", 32]}]]}, "boolkey": {"d": [[True, {"i": 4}]]},
+            "tuplekey": {"d": [[{"T": rng.choice([[], [{"i": 1}, {"s": "b"}], [None, True]])}, {"i": 5}], [{"i": 7}, {"l": [{"s": "x"}]}]]},
             "action_set": {"a": ["a9", "TestAction", None, "STARTED", {"d": []}, {"d": [[{"s": "x"}, {"S": [{"i": 1}]}]]}, 1]},
             "action_tuple": {"a": ["a9", "TestAction", None, "STARTED", {"d": [[{"s": "r"}, {"t": [{"i": 1}, {"s": "b"}]}]]}, {"d": []}, 1]},
             "action_typekey": {"a": ["a9", "TestAction", None, "STARTED", {"d": [[{"s": "__type"}, {"s": "set"}], [{"s": "value"}, {"l": [{"i": 1}]}]]}, {"d": []}, 1]},
@@ -277,7 +286,7 @@ def g_cleanup_case(rng):
 # ============================================================================= generators: e2e programs
 
 LITERALS = [
-    '{"a", "b"}', '{1, 2, 3}', '[1, [2, {"k": "v"}]]', '{"k": [1, 2], "n": {"z": {"q", "r"}}}', '[{"x"}, {"y": {1}}]', '"txt"', "42", "2.5", "True", "None", "[]", '{"only"}',
+    '{"a", "b"}', '{1, 2, 3}', 'regex("a+")', '{1: "one", 2: [3, {"k": regex("b")}]}', '[1, [2, {"k": "v"}]]', '{"k": [1, 2], "n": {"z": {"q", "r"}}}', '[{"x"}, {"y": {1}}]', '"txt"', "42", "2.5", "True", "None", "[]", '{"only"}',
 ]
 BAD_LITERALS = {"regex": 'regex("a+")', "cmp": "less_than(3)", "intkey": '{1: "one", 2: "two"}'}
 
@@ -899,6 +908,10 @@ def _graph_diff(a, b):
             if x != y:
                 return f"{path}: {x} vs {y}"
             continue
+        if isinstance(x, re.Pattern):
+            if (x.pattern, x.flags) != (y.pattern, y.flags):
+                return f"{path}: {x} vs {y}"
+            continue
         if not raw:
             # objects inside Action.to_dict() payloads are written raw (no refs): compared by value only
             if id(x) in fwd or id(y) in bwd:
@@ -1237,7 +1250,7 @@ def _nonstr_key(j):
 
 def _action_nonjson(j):
     def raw_bad(x):
-        return isinstance(x, dict) and (any(t in x for t in ("t", "S", "q", "D", "e", "dt", "st", "a", "r", "c", "o", "p")) or ("d" in x and any(k == {"s": "__type"} for k, _ in x["d"])))
+        return isinstance(x, dict) and (any(t in x for t in ("t", "S", "q", "D", "e", "dt", "st", "a", "r", "c", "o", "p")) or ("d" in x and any(k == {"s": "__type"} or not (isinstance(k, dict) and "s" in k) for k, _ in x["d"])))
     return isinstance(j, dict) and "a" in j and (_pv_has(j["a"][4], raw_bad) or _pv_has(j["a"][5], raw_bad))
 
 
@@ -1253,30 +1266,20 @@ def signature(case, obs, msg):
         if not is_corr:  # an oracle failure names its symptom: prefer it when several regions overlap
             if "two separate lists" in msg:
                 return "aliased-list"
-            if "re.Pattern" in msg:
-                return "state-holds-regex"
             if "ComparisonExpression" in msg:
                 return "state-holds-comparison"
-            if "keys must be" in msg:
-                return "dict-with-non-string-keys"
-            if "not JSON serializable" in msg:
+            if "not JSON serializable" in msg or "keys must be" in msg:
                 return "action-payload-not-json"
-        if _pv_has(seen, lambda j: isinstance(j, dict) and "r" in j):
-            return "state-holds-regex"
         if _pv_has(seen, lambda j: isinstance(j, dict) and "c" in j):
             return "state-holds-comparison"
         if _pv_has(seen, _action_nonjson):
             return "action-payload-not-json"
-        if _pv_has(seen, _nonstr_key):
-            return "dict-with-non-string-keys"
         if obs.get("aliased_lists"):
             return "aliased-list"
         return None
     if k == "cleanup":
         return None
     if k == "rails":
-        if "re.Pattern" in msg or "regex" in case.get("features", []):
-            return "state-holds-regex"
         return None
     probs = obs.get("problems") or []
     if not probs:
@@ -1284,8 +1287,6 @@ def signature(case, obs, msg):
     p = _worst(probs)
     facts = obs.get("facts", {})
     if p["what"] == "encode":
-        if p["kind"] == "unhandled" and "re.Pattern" in p["msg"]:
-            return "state-holds-regex"
         if p["kind"] == "unhandled" and "ComparisonExpression" in p["msg"]:
             return "state-holds-comparison"
         if p["kind"] == "cyclic":
@@ -1294,8 +1295,6 @@ def signature(case, obs, msg):
             return "action-payload-not-json"
         return None
     if p["what"] in ("restore-diverges", "structure"):
-        if facts.get("nonstr_keys"):
-            return "dict-with-non-string-keys"
         if facts.get("aliased_lists") and ".append(" in case["src"] and p["what"] == "restore-diverges":
             return "aliased-list"
     return None
